@@ -431,20 +431,23 @@ example : ∃ s', (tryCore (throw (Sig.err ⟨"Operand is not a number", 1, 1⟩
     (`Ecal/Lemmas/C06NoPanic.lean`), ANY scope, ANY heap (operands of any kind, dangling references, cyclic
     containers), any fuel. `Inv s` only says: the declarations in the function table and the trees of the
     interpolation table are in `Frag` (`inv_empty`: it holds initially). `Frag` contains, nested to any depth:
-    * literals `number true false null`, raw string literals, list literals (any length), map literals —
+    * literals `number true false null`, raw AND interpolating string literals (every embedded expression
+      whose tree is in the table is evaluated; `Inv` makes those trees `Frag`), list literals (any length), map literals —
       an entry that is not a key-value pair and an unhashable key are ERRORS (the repaired sites), not panics;
     * unary `plus minus not`, `guard`; binary `plus minus times div divint modint and or == != >= > <= <
       in notin hasprefix hassuffix` (deep equality, the stringifying comparison included); `like` and the
       other nodes the model does not evaluate end in `unsupported`, never `panic`;
     * identifiers without access path (read), `a := e` and `let a := e`, `let a` / `let [a, b]`;
-    * `statements` (any length), `break continue return`.
+    * `statements` (any length), `break continue return`;
+    * `if` / `elif` / `else` (any number of guard/block pairs), condition loops (`loop` with a `guard`).
     Also proved for every input (no fragment needed): the access-path functions `getValue setValue
     containerGet containerWalk listIndex` (the three repaired negative-index sites), all heap / scope
     primitives, `sprint`, `deepEq`.
     Missing from `Frag`: access paths in the tree (`a.b[c]`: `accessString` needs a loop invariant for its
-    early return), destructuring assignment, `if`, loops, `try` (control skeleton: `error_in_try_catchable`
-    and the C04 combinator theorems), function declarations and calls (builtin argument checks:
-    `builtin_total` on the Prims model), interpolating strings, sink / import / mutex. -/
+    early return), destructuring assignment, `for … in` loops, `try` (control skeleton:
+    `error_in_try_catchable` and the C04 combinator theorems; `attemptE` / `withFreshIs` rules exist),
+    function declarations and calls (builtin argument checks: `builtin_total` on the Prims model; the
+    dangling-id case of `runFunction` is an `unsupported` outcome now), sink / import / mutex (not in the model). -/
 theorem eval_never_panics_partial (f sc : Nat) (n : Ecal.Parse.Node) (hn : Frag n) (s : St) (hs : Inv s) :
     ((eval f sc n).run.run s).1 ≠ .error Sig.panic ∧ Inv ((eval f sc n).run.run s).2 :=
   eval_frag_no_panic f sc n hn s hs
